@@ -333,6 +333,12 @@ public:
   std::map<char, std::vector<DepRec>> issuedDeps;   // per task this build, in issue order (+discovered)
   std::map<char, std::string> completedValue;
   std::map<char, char> discoveredBy;                // rule -> leaf it reported as discovered in this build
+  std::set<char> withdrawnThisBuild;                // rules whose record was rewritten as "not up to date"
+  // k completed in the current build and the key it discovered has not been brought up to date (yet)
+  bool unsettled(char k) const {
+    auto it = discoveredBy.find(k);
+    return it != discoveredBy.end() && statusComplete.count(k) && !doneThisBuild.count(it->second);
+  }
   std::set<std::pair<char, char>> waitEdges;        // (waiter, awaited) requests issued this build
   std::map<char, std::vector<DepRec>> preBuildDeps; // recorded deps before this build (for C07 W)
   std::map<char, std::string> preBuildLast;         // stored values before this build
@@ -672,6 +678,12 @@ public:
     char k = specKey(r.key);
     lastWritten[r.key] = r;
     disk[k] = mem[k];
+    // A record rewritten with builtAt 0 is the engine's way of withdrawing the
+    // "up to date" claim of a rule that completed in a build which ended before
+    // the key it had discovered was brought up to date: a later process treats
+    // the rule as never built (value and dependency list are kept).
+    bool withdrawn = r.builtAt == 0 && unsettled(k);
+    if (withdrawn) { disk[k].ever = false; withdrawnThisBuild.insert(k); }
     if (!cfg.checkPersist) return;
     if (!completedThisBuild.count(k)) {
       violate("persisted-uncompleted", "engine persisted a result for " + r.key + " whose task did not complete in this build");
@@ -713,7 +725,8 @@ public:
         violate("persisted-wrong-deps", "persisted dependency list of " + r.key + " is [" + x + "], the execution requested [" + y + "]");
       }
     }
-    if (r.builtAt != engine->getCurrentEpoch() || r.computedAt > r.builtAt || r.computedAt == 0)
+    if (withdrawn ? (r.computedAt == 0 || r.computedAt > engine->getCurrentEpoch())
+                  : (r.builtAt != engine->getCurrentEpoch() || r.computedAt > r.builtAt || r.computedAt == 0))
       violate("persisted-bad-epochs", "persisted epochs of " + r.key + ": built " + std::to_string(r.builtAt) + " computed " +
                                           std::to_string(r.computedAt) + " current " + std::to_string(engine->getCurrentEpoch()));
   }
@@ -991,7 +1004,7 @@ inline BuildObs Session::build(const Event& ev) {
   cancelAt = ev.cancelAt;
   cancelIssued = false;
   created.clear(); validFalse.clear(); doneThisBuild.clear(); completedThisBuild.clear(); statusComplete.clear();
-  running.clear(); pending.clear(); refCache.clear(); issuedDeps.clear(); completedValue.clear(); waitEdges.clear(); discoveredBy.clear();
+  running.clear(); pending.clear(); refCache.clear(); issuedDeps.clear(); completedValue.clear(); waitEdges.clear(); discoveredBy.clear(); withdrawnThisBuild.clear();
   cycleReported = false; cycleReports = 0; violationThisBuild = false;
   preBuildDeps.clear();
   preBuildLast.clear();
@@ -1055,12 +1068,18 @@ inline BuildObs Session::build(const Event& ev) {
   if (!o.success) {
     for (auto& kv : created)
       if (!statusComplete.count(kv.first)) mem[kv.first].interrupted = true;
+    // A rule that completed but whose discovered key was not brought up to date
+    // before the build ended: its bookkeeping was interrupted, running it again
+    // is justified (allowed, not demanded: the C01 oracle judges the results).
     for (auto& kv : discoveredBy)
-      if (statusComplete.count(kv.first) && !doneThisBuild.count(kv.second)) {
+      if (unsettled(kv.first)) {
         mem[kv.first].unsettledDiscovered = kv.second;
-        if (disk.count(kv.first)) disk[kv.first].unsettledDiscovered = kv.second;
+        mem[kv.first].interrupted = true;
+        if (disk.count(kv.first)) { disk[kv.first].unsettledDiscovered = kv.second; if (cfg.useDB) disk[kv.first].ever = false; }
       }
   }
+  if (o.success && !withdrawnThisBuild.empty())
+    violate("persisted-withdrawn-in-successful-build", std::string("a successful build rewrote the record of ") + *withdrawnThisBuild.begin() + " as not up to date");
 
   // -- C01
   if (o.success && cfg.checkC01) {
